@@ -373,12 +373,44 @@ def write_replay(v):
 _WORK = None
 
 
+class LibraryRaised(HarnessError):
+    """An exception nobody in the harness expected came out of the library under test (innermost frame in kio or
+    codegen) while the harness was calling it with in-domain arguments: on the unchanged tree that never happens,
+    so it is reported as a violation of the property being checked, not as a harness error."""
+
+    def __init__(self, exc_name, text):
+        super().__init__(text)
+        self.exc_name, self.text = exc_name, text
+
+
+def raised_in_library(tb):
+    """Is the innermost frame of this traceback in the library under test?"""
+    if tb is None:
+        return False
+    while tb.tb_next is not None:
+        tb = tb.tb_next
+    fn = os.path.realpath(tb.tb_frame.f_code.co_filename)
+    roots = [os.path.realpath(os.path.join(REPO, "src", "kio")), os.path.realpath(os.path.join(REPO, "codegen"))]
+    try:
+        import kio
+
+        roots.append(os.path.realpath(os.path.dirname(kio.__file__)))
+    except Exception:  # noqa: BLE001
+        pass
+    return any(fn.startswith(r + os.sep) for r in roots)
+
+
 def _call(i):
     fn, items = _WORK
     try:
         return ("ok", i, fn(items[i]))
-    except BaseException as e:  # noqa: BLE001 - report, never hang the pool
+    except HarnessError as e:
         return ("err", i, f"{type(e).__name__}: {e}\n{traceback.format_exc()}")
+    except BaseException as e:  # noqa: BLE001 - report, never hang the pool
+        text = f"{type(e).__name__}: {e}\n{traceback.format_exc()}"
+        if isinstance(e, Exception) and raised_in_library(e.__traceback__):
+            return ("lib", i, (type(e).__name__, text))
+        return ("err", i, text)
 
 
 def _init_worker(mem_gb):
@@ -403,6 +435,8 @@ def pmap(fn, items, procs=None, mem_gb=6, chunksize=1):
     if procs == 1 or os.environ.get("KVERIF_SERIAL"):
         for i in range(len(items)):
             st, _, res = _call(i)
+            if st == "lib":
+                raise LibraryRaised(*res)
             if st == "err":
                 raise HarnessError(res)
             yield res
@@ -410,6 +444,9 @@ def pmap(fn, items, procs=None, mem_gb=6, chunksize=1):
     ctx = mp.get_context("fork")
     with ctx.Pool(procs, initializer=_init_worker, initargs=(mem_gb,)) as pool:
         for st, _, res in pool.imap_unordered(_call, range(len(items)), chunksize=chunksize):
+            if st == "lib":
+                pool.terminate()
+                raise LibraryRaised(*res)
             if st == "err":
                 pool.terminate()
                 raise HarnessError(res)
